@@ -174,6 +174,66 @@ def batch_equals_sequential(p: int, n: int, d0: bool, d1: bool, d2: bool, c0: in
     return fin(ok)
 
 
+def shared_manifest(same_dep: bool, declared: bool, swap: bool) -> bool:
+    """Two codemods of one run that need a package (the same one or different ones) and share the run's parsed
+    manifest (real PackageStore, real DependencyManager / RequirementsTxtWriter over an in-memory file): the
+    manifest ends up exactly as after running them one at a time with a re-parse in between - each needed package
+    listed once - and each codemod reports the same number of manifest changesets as in its own run.
+    post: _
+    """
+    import codemodder.dependency_management.requirements_txt_writer as rw
+    from codemodder.project_analysis.file_parsers.package_store import FileType, PackageStore
+    from vlib.stubs import FakeFS
+
+    path = "/d/requirements.txt"
+    text = "requests\n" + ("defusedxml==0.7.1\n" if declared else "")
+    needs = [DefusedXML, DefusedXML if same_dep else Security]
+    if swap:
+        needs.reverse()
+
+    def parse(fs):
+        lines = [l for l in fs.files[path].split("\n") if l]
+        return PackageStore(type=FileType.REQ_TXT, file=Path(path), dependencies=set(lines), py_versions=[])
+
+    class RM:
+        def __init__(self, store):
+            self.package_stores = [store]
+
+    def run(fs, store, which):
+        ctx = _ctx()
+        ctx.__dict__["files_to_analyze"] = [Path("/d/x.py")]
+        ctx.repo_manager = RM(store)
+        log = []
+        cms = []
+        for i in which:
+            cm = _Cm(i, log, False, 0)
+            dep = needs[i]
+
+            def apply(context, cm=cm, dep=dep):
+                fc = FileContext(Path("/d"), Path("/d/x.py"))
+                fc.dependencies.add(dep)
+                context.process_results(cm.id, iter([fc]))
+
+            cm.apply = apply
+            cms.append(cm)
+        rw.open = fs.open
+        try:
+            cmod.apply_codemods(ctx, cms)
+        finally:
+            del rw.open
+        return [len(ctx.get_changesets(c.id)) for c in cms]
+
+    fs_b = FakeFS({path: text})
+    batch = run(fs_b, parse(fs_b), [0, 1])
+    fs_s = FakeFS({path: text})
+    seq = run(fs_s, parse(fs_s), [0]) + run(fs_s, parse(fs_s), [1])
+    final = [l for l in fs_b.files[path].split("\n") if l]
+    ok = fs_b.files[path] == fs_s.files[path] and batch == seq
+    for dep in needs:
+        ok = ok and final.count(str(dep.requirement)) == 1
+    return fin(ok)
+
+
 def planted_cross_talk(a: int, b: int) -> bool:
     """Self-test: an aggregator keyed by nothing (one shared list) must be refuted by the step oracle.
     post: _
@@ -186,6 +246,8 @@ def planted_cross_talk(a: int, b: int) -> bool:
 def warmup():
     inductive_step([0, 1, 0], 1, 2, 1, 1, True)
     batch_equals_sequential(3, 3, True, False, True, 1, 0, 1)
+    shared_manifest(True, False, False)
+    shared_manifest(False, True, True)
 
 
 SPEC = {
@@ -195,6 +257,7 @@ SPEC = {
     "functions": [
         "CodemodExecutionContext.process_results / add_changesets / add_failures / add_dependencies / add_unfixed_findings / get_* / compile_results / process_dependencies / add_description",
         "codemodder.codemodder.apply_codemods / record_dependency_update",
+        "PackageStore.has_requirement, DependencyWriter.write / add, RequirementsTxtWriter.add_to_file (shared manifest across two codemods)",
     ],
     "bounds": {
         "quick": "pre-state: a history of <= 2 (thorough 3) earlier contributions by codemods chosen from a pool of 3; step payload: 0-2 changesets, 0-1 failed files, 0-1 unfixed findings, optional dependency; batch: every order of <= 3 distinct codemods, each with 0-1 changesets and an optional dependency",
@@ -209,6 +272,7 @@ SPEC = {
     "xh": [
         Xh("inductive_step", 400, 1800),
         Xh("batch_equals_sequential", 400, 900),
+        Xh("shared_manifest", 200, 400),
         Xh("planted_cross_talk", 60, 120, twin=False, expect="refuted"),
     ],
 }
